@@ -8,22 +8,74 @@ from vf.kernel import astsmt as A
 from vf.kernel import extract as X
 from vf.kernels.common import *  # noqa
 
+
+def V_int(dom, term):
+    return A.V("int", term)
+
 REST = "eudoxia/scheduler/rest.py"
 
 
+class _Params(ast.NodeTransformer):
+    """s.params.get("k", default) / s.params["k"]  ->  Name param_k (the parameter dictionary is the harness's input)."""
+
+    def visit_Call(self, node):
+        self.generic_visit(node)
+        if X.dotted(node.func) == "s.params.get" and node.args and isinstance(node.args[0], ast.Constant):
+            return ast.copy_location(ast.Name(id="param_" + str(node.args[0].value), ctx=ast.Load()), node)
+        return node
+
+    def visit_Subscript(self, node):
+        self.generic_visit(node)
+        if X.dotted(node.value) == "s.params" and isinstance(node.slice, ast.Constant):
+            return ast.copy_location(ast.Name(id="param_" + str(node.slice.value), ctx=ast.Load()), node)
+        return node
+
+
 def pieces():
-    f = X.func(X.load(REST), "rest_scheduler")
-    cur = X.assign_value(f, "current_sim_time")
-    since = X.assign_value(f, "time_since_last")
-    skip = None
-    for n in ast.walk(f):
-        if isinstance(n, ast.If) and X.mentions(n.test, "time_since_last") and X.mentions(n.test, "rest_poll_interval"):
-            parts = n.test.values if isinstance(n.test, ast.BoolOp) else [n.test]
-            keep = [p for p in parts if X.mentions(p, "time_since_last")]
-            skip = keep[0]
-    if skip is None:
-        raise X.NotFound("poll-interval test in rest_scheduler")
-    return cur, since, skip
+    """The bridge as a small state machine, located by role: the statements of rest_init that set attributes of s, the
+    statements of rest_scheduler before the idle-tick early return, the extra conjuncts of that early return (beside
+    `not pipelines` / `not results`), and the attribute updates made when a call goes ahead."""
+    import copy
+    tree = X.load(REST)
+    init = _Params().visit(copy.deepcopy(X.func(tree, "rest_init")))
+    f = _Params().visit(copy.deepcopy(X.func(tree, "rest_scheduler")))
+    thr = None
+    for k, n in enumerate(f.body):
+        if isinstance(n, ast.If) and isinstance(n.test, ast.BoolOp) and isinstance(n.test.op, ast.And) and n.body and isinstance(n.body[0], ast.Return):
+            srcs = [X.src(v) for v in n.test.values]
+            if "not pipelines" in srcs and "not results" in srcs:
+                thr = (k, n, [v for v in n.test.values if X.src(v) not in ("not pipelines", "not results")])
+    if thr is None:
+        raise X.NotFound("idle-tick early return (not pipelines and not results and ...) in rest_scheduler")
+    k, n, conj = thr
+    if not conj:
+        raise X.NotFound("poll-interval condition in the idle-tick early return")
+    init_set = [st for st in init.body if isinstance(st, (ast.Assign, ast.AnnAssign))]
+    pre = [st for st in f.body[:k] if isinstance(st, (ast.Assign, ast.AugAssign))]
+    post = [st for st in f.body[k + 1:] if isinstance(st, ast.Assign) and (X.dotted(st.targets[0]) or "").startswith("s.")]
+    return init_set, pre, conj, post
+
+
+def _run(stmts, env, tolerant):
+    """Execute simple assignments symbolically; with tolerant=True statements the translator cannot express (sessions,
+    timers, dictionaries) are skipped - their targets stay unknown, and a later use raises Unsupported."""
+    for st in stmts:
+        try:
+            if isinstance(st, ast.AugAssign):
+                t = X.dotted(st.target)
+                op = {ast.Add: "+", ast.Sub: "-", ast.Mult: "*", ast.Div: "/"}[type(st.op)]
+                env.names[t] = env.dom.arith(op, env.names[t], A.ev(st.value, env))
+            else:
+                tgt = st.targets[0] if isinstance(st, ast.Assign) else st.target
+                if st.value is None:
+                    continue
+                t = X.dotted(tgt)
+                if t is None:
+                    continue
+                env.names[t] = A.ev(st.value, env)
+        except (A.Unsupported, KeyError, X.NotFound):
+            if not tolerant:
+                raise
 
 
 def poll_rule(tier="quick"):
@@ -31,18 +83,32 @@ def poll_rule(tier="quick"):
     poll interval of simulated time has passed since the last call (up to float rounding of the simulated
     times), and it does call once more than an interval has passed."""
     res = Result()
-    cur_e, since_e, skip_e = pieces()
-    res.encoded += [f"current_sim_time = {X.src(cur_e)}", f"time_since_last = {X.src(since_e)}", f"skip if {X.src(skip_e)}"]
+    init_set, pre, conj, post = pieces()
+    res.encoded += ["rest_init: " + "; ".join(X.src(st) for st in init_set if "poll" in X.src(st) or "last_call" in X.src(st) or "current_tick" in X.src(st)),
+                    "rest_scheduler before the early return: " + "; ".join(X.src(st) for st in pre),
+                    "skip if " + " and ".join(X.src(c) for c in conj),
+                    "on a call: " + "; ".join(X.src(st) for st in post)]
     dom = A.RLX()
     cur, last, tps, poll = dom.int_var("cur"), dom.int_var("last"), dom.int_var("tps"), dom.float_var("poll")
-    env = A.Env(dom, {"s.current_tick": cur, "ticks_per_second": tps, "s.rest_poll_interval": poll})
-    # the time of the last call was computed by the same expression at tick `last`
-    env_last = A.Env(dom, {"s.current_tick": last, "ticks_per_second": tps})
-    last_time = A.ev(cur_e, env_last)
-    env.names["current_sim_time"] = A.ev(cur_e, env)
-    env.names["s.last_call_sim_time"] = last_time
-    env.names["time_since_last"] = A.ev(since_e, env)
-    skip = A.ev(skip_e, env)
+    base = {"param_ticks_per_second": tps, "param_rest_poll_interval": poll}
+    env0 = A.Env(dom, dict(base))
+    _run(init_set, env0, tolerant=True)
+    # the call at tick `last` (forced by an arrival): statements before the early return, then the updates of a call
+    envL = A.Env(dom, dict(env0.names))
+    envL.names["s.current_tick"] = V_int(dom, last.t - 1)
+    _run(pre, envL, tolerant=True)
+    _run(post, envL, tolerant=True)
+    state = {k: v for k, v in envL.names.items() if k.startswith("s.") or k in base}
+    # idle ticks in between only advance the tick counter (checked: no other attribute is written before the early return)
+    for st in pre:
+        t = X.dotted(st.target if isinstance(st, ast.AugAssign) else st.targets[0]) or ""
+        if t.startswith("s.") and t != "s.current_tick":
+            return res.out("inconclusive", f"cannot encode current source: {t} is written on skipped ticks")
+    env = A.Env(dom, dict(state))
+    env.names["s.current_tick"] = V_int(dom, cur.t - 1)
+    _run(pre, env, tolerant=True)
+    parts = [A.ev(c, env) for c in conj]
+    skip = parts[0] if len(parts) == 1 else dom.b_and(parts)
     T = z3.ToReal(tps.t)
     exact = (z3.ToReal(cur.t) - z3.ToReal(last.t)) / T
     slack = Q(4 * Fraction(1, 2 ** 53)) * z3.ToReal(cur.t) / T
